@@ -429,3 +429,52 @@ def c13(c):
                       "the tolerance formula; rounding behaviour is not re-derived and real (non-dyadic) inputs are represented by integer ones",
                       "operand families are restricted so that exact products fit 31 bits (dense b is scaled down at large n; the full range is "
                       "covered by sparse vectors)"]
+
+
+def _tla_to_json(v):
+    """parsed TLA+ value (runner.parse_value) -> plain JSON (records/tuples); BigNat limbs stay lists"""
+    if isinstance(v, dict):
+        if "#set" in v:
+            return [_tla_to_json(x) for x in v["#set"]]
+        if "#fn" in v:
+            return {k: _tla_to_json(x) for k, x in v["#fn"].items()}
+        return {k: _tla_to_json(x) for k, x in v.items()}
+    if isinstance(v, list):
+        return [_tla_to_json(x) for x in v]
+    return v
+
+
+def c10(c):
+    thorough = c.tier == "thorough"
+    c.cov["rule"] = ("MC_Falcon (algebra): the coset / basis identities on the toy ring for every z. Trace_Moments: one key per variant (two in "
+                     "thorough), N signatures of distinct messages (quick 196 / 98, thorough 1512 / 756); per signature TLC recomputes c, s2, "
+                     "s1 from the bytes, demands the verification bound and computes exactly ||s||^2 and the projections on all 2n rotations "
+                     "of (g,-f) and (G,-F); a second TLC run sums the shards' partial sums and applies the windows: E||s||^2 = 2 n sigma^2, "
+                     "E sum_k <s,x^k b>^2 = n sigma^2 ||b||^2, mean zero. distinct_nontrivial = number of moment predicates evaluated")
+    _mc_falcon(c, ["algebra"], [])
+    n512, n1024, keys = (1512, 756, 2) if thorough else (196, 98, 1)
+    drive("c10", ["--tier", c.tier, "--seed", c.seed, "--out", c.work, "--shards", 14, "--n512", n512, "--n1024", n1024, "--keys", keys], timeout=7200)
+    files = traces_in(c.work, "mom")
+    to = validate_traces("Trace_Moments", files, parallel=PAR, timeout=14400, sparse=True, xmx="4g")
+    c.add_traces(to, keyfn=generic_key, label="sig")
+    # collect the PARTIAL records printed by the shards and aggregate them in a second TLC run
+    parts = []
+    jobs = [dict(module="Trace_Moments", env={"TRACE": f}, workers=1, timeout=14400, xmx="4g", name="mom_%d" % i) for i, f in enumerate(files)]
+    # (the shard runs above already printed PARTIAL; re-use their outputs instead of re-running)
+    for r in getattr(to, "results", []):
+        for t in runner.printed_tuples(r.stdout, {"PARTIAL"})[:1]:
+            p = _tla_to_json(t[1])
+            p["ev"] = "partial"
+            p["tag"] = "partial"
+            parts.append(p)
+    if len(parts) != len([f for f in files if os.path.getsize(f) > 0]):
+        raise runner.ToolError("missing PARTIAL output from %d shard(s)" % (len(files) - len(parts)))
+    agg = os.path.join(c.work, "agg.0.ndjson")
+    with open(agg, "w") as f:
+        for p in parts:
+            f.write(json.dumps(p) + "\n")
+    to2 = validate_traces("Trace_Moments", [agg], parallel=1, sparse=True, xmx="4g")
+    c.add_traces(to2, keyfn=system_key, label="moments")
+    c.assumptions += ["three aggregated families of directions (the 2n basis-row rotations exactly, the overall norm), not each Gram-Schmidt "
+                      "direction separately: a leak confined to deep tree levels that preserves all aggregates is not seen",
+                      "windows are 6.5 standard deviations of the estimators (false alarm < 1e-9)", "the analytic sphericity argument is not derived"]
